@@ -10,6 +10,7 @@ Three independent renderers meet here:
     through the observation row of (origin, pass) pairs.
 """
 import contextlib
+import enum
 import io
 import json
 import random
@@ -68,8 +69,119 @@ def pr(ns, escd=False):
 
 # ---------------------------------------------------------------------------
 # values:  {"s": str} | {"i": int} | {"b": bool} | {"n": None} | {"f": float} | {"l": [item]} | {"t": [item]} (tuple)
+#          | {"o": obj}
 # item:    str | {"d": [[k, v], ...]} | {"i": int} | {"b": bool} | {"n": None} | {"f": float} | {"t": [atom]} (tuple)
+#          | {"o": obj} (JSON-serialisable kinds only);  a dict value v is a str or {"o": obj} (serialisable kinds)
+# obj:     an object of a type of the USER's, unusual but legal as a binding - what it prints as (str()) is not its data:
+#          ["enum", member]           member of class Priority(str, Enum): str() 'Priority.HIGH', data 'high' (== 'high')
+#          ["level", member]          member of class Level(int, Enum): str() 'Level.TWO', data 2; Level.ZERO is falsy
+#          ["masked", data]           instance of a str subclass whose __str__ hides the payload: '<redacted>'
+#          ["tagged", data]           instance of a str subclass whose __str__ is '<<' + data[::-1] + '>>'
+#          ["celsius", n]             instance of an int subclass whose __str__ is 'n C'
+#          ["note", text, truth, n]   a plain object: __str__ text (any text, template syntax included), __repr__
+#                                     'Note(<repr of text>)', __bool__ truth, __len__ n (None: unsized); json.dumps refuses it
 # ---------------------------------------------------------------------------
+class Masked(str):
+    """a string whose printable form hides the payload"""
+
+    def __str__(self):
+        return "<redacted>"
+
+
+class Tagged(str):
+    """a string that prints as '<<' + its data reversed + '>>'"""
+
+    def __str__(self):
+        return "<<" + self[::-1] + ">>"
+
+
+class Celsius(int):
+    def __str__(self):
+        return "%d C" % int(self)
+
+
+class Note:
+    def __init__(self, text, truth, size=None):
+        self.text, self.truth, self.size = text, truth, size
+
+    def __str__(self):
+        return self.text
+
+    def __repr__(self):
+        return "Note(%r)" % (self.text,)
+
+    def __bool__(self):
+        return self.truth
+
+
+class SizedNote(Note):
+    def __len__(self):
+        return self.size
+
+
+PRIORITY_DATA = {"HIGH": "high", "LOW": "low", "EMPTY": "", "TPL": "{{y}}", "PAD": " Padded ", "OPEN": "{"}
+LEVEL_DATA = {"ZERO": 0, "ONE": 1, "TWO": 2}
+SERIALISABLE_KINDS = ("enum", "level", "masked", "tagged", "celsius")
+
+
+def _mk_enums():
+    from_data = lambda f: enum.Enum("Priority", {k: f(v) for k, v in PRIORITY_DATA.items()}, type=str)   # noqa: E731
+    return {False: from_data(lambda v: v), True: from_data(lambda v: esc(v))}, enum.Enum("Level", LEVEL_DATA, type=int)
+
+
+def py_obj(o, escd=False):
+    """the Python object of an obj description; for the run with neutralised braces it is built from the renamed data
+    and remembers its twin (custom filters are conjugated with the renaming: unesc_deep)"""
+    k = o[0]
+    if k == "enum":
+        return PRIORITY[bool(escd)][o[1]]
+    if k == "level":
+        return LEVEL[o[1]]
+    if k == "celsius":
+        return Celsius(o[1])
+    e = esc if escd else (lambda t: t)
+    if k == "masked":
+        x = Masked(e(o[1]))
+    elif k == "tagged":
+        x = Tagged(e(o[1]))
+    elif k == "note":
+        x = (SizedNote if o[3] is not None else Note)(e(o[1]), bool(o[2]), o[3])
+    else:
+        raise ValueError(o)
+    if escd:
+        x._plain = py_obj(o, False)
+    return x
+
+
+def obj_views(x):
+    """what Python's protocols answer for an object: (str, repr, json.dumps | None, bool, len | None)"""
+    try:
+        j = json.dumps(x)
+    except TypeError:
+        j = None
+    try:
+        n = len(x)
+    except TypeError:
+        n = None
+    return str(x), repr(x), j, bool(x), n
+
+
+def obj_texts(o):
+    """every text an obj can contribute: its views and its raw data"""
+    s_, r_, j_, _t, _n = obj_views(py_obj(o))
+    data = PRIORITY_DATA[o[1]] if o[0] == "enum" else (o[1] if isinstance(o[1], str) else "")
+    return [s_, r_, j_ or "", data]
+
+
+def obj_view_texts(o):
+    s_, r_, j_, _t, _n = obj_views(py_obj(o))
+    return [s_, r_, j_ or ""]
+
+
+def is_obj(v):
+    return isinstance(v, dict) and "o" in v
+
+
 def py_atom(a):
     if "i" in a:
         return int(a["i"])
@@ -84,17 +196,27 @@ def py_atom(a):
     raise ValueError(a)
 
 
+def py_dval(v, escd=False):
+    if is_obj(v):
+        return py_obj(v["o"], escd)
+    return esc(v) if escd else v
+
+
 def py_item(it, escd=False):
     if isinstance(it, str):
         return esc(it) if escd else it
     if "d" in it:
-        return {k: (esc(v) if escd else v) for k, v in it["d"]}
+        return {k: py_dval(v, escd) for k, v in it["d"]}
+    if "o" in it:
+        return py_obj(it["o"], escd)
     return py_atom(it)
 
 
 def py_value(v, escd=False):
     if "s" in v:
         return esc(v["s"]) if escd else v["s"]
+    if "o" in v:
+        return py_obj(v["o"], escd)
     if "l" in v:
         return [py_item(it, escd) for it in v["l"]]
     if "t" in v:
@@ -115,6 +237,9 @@ def py_ctx(ctx, escd=False):
 
 def truthy(v):
     return bool(py_value(v))
+
+
+PRIORITY, LEVEL = _mk_enums()
 
 
 FILTERS = ("upper", "lower", "trim", "title", "length", "json", "repr")
@@ -140,9 +265,11 @@ CUSTOM = {
     "wrap": lambda x: "{{" + str(x) + "}}",                             # its RESULT carries template syntax
     "str": str,
     "len": len,                                                         # returns an int; TypeError on unsized values
+    "tag": lambda x: Tagged(str(x)),                                    # its RESULT is an instance of a str subclass that
+                                                                        # does not print as its data
 }
-COQ_CUSTOM = {"parens": "CParens", "rev": "CRev", "wrap": "CWrap", "str": "CStr", "len": "CLen"}
-CUSTOM_NAMES = ["parens", "rev", "wrap", "same", "size", "upper", "json", "nofilter", "dflt", "length"]
+COQ_CUSTOM = {"parens": "CParens", "rev": "CRev", "wrap": "CWrap", "str": "CStr", "len": "CLen", "tag": "CTag"}
+CUSTOM_NAMES = ["parens", "rev", "wrap", "same", "size", "upper", "json", "nofilter", "dflt", "length", "tag"]
 
 
 def case_filters(case):
@@ -154,7 +281,11 @@ def unesc_plain(s):
 
 
 def unesc_deep(x):
-    if isinstance(x, str):
+    if type(x) is PRIORITY[True]:
+        return PRIORITY[False][x.name]
+    if getattr(x, "_plain", None) is not None:
+        return x._plain
+    if type(x) is str:
         return unesc_plain(x)
     if isinstance(x, list):
         return [unesc_deep(y) for y in x]
@@ -192,13 +323,17 @@ def apply_filter(f, pv, table=()):
     if f == "trim":
         return str(pv).strip()
     if f == "length":
-        if isinstance(pv, (str, list, tuple)):
+        try:
             return str(len(pv))
-        raise RefTypeError()
+        except TypeError:
+            raise RefTypeError()
     if f == "title":
         return str(pv).title()
     if f == "json":
-        return json.dumps(pv)
+        try:
+            return json.dumps(pv)
+        except TypeError:
+            raise RefTypeError()
     if f == "repr":
         return repr(pv)
     raise ValueError("not a built-in filter: " + f)
@@ -492,7 +627,14 @@ ADV = ["{", "}", "{", "}", "{y", "y}", "{{y}}", "{{?y}}", "{{y|upper}}", "{{y|d 
        "{{first}}", "{{name}}", "{{k}}", "}}", "{{", "{", "}", "a{{b", "{{/if}}", "{{#else}}", "{{/each}}",
        "{{x}}", "{{m1}}", "{{n1|length}}", "{{x|trim}}", "{{?m2}}", "{{m2|gone}}", "{{#each ys}}", "{{#if flag}}"]
 ADV_DEFAULTS = ["{{y", "{{?y", "{{>t1", "{", "{{", "x{{y|upper", "{{#if a", "{{m1", "{{.", "{{y|lower"]
-RESERVED = {"template", "self", "sequence"}
+# identifiers the API itself uses: parameters of translate / synthesize / create_template / register_template / the
+# constructor / the internal passes, fields of Protein / mRNA / Codon.  Every one of them is a legal variable name.
+API_NAMES = ["strict", "template", "sequence", "self", "context", "name", "silent", "filters", "templates", "warnings",
+             "description", "codons", "kwargs", "match", "source_mrna", "variables_bound", "default", "required",
+             "codon_type", "args", "cls", "mrna"]
+API_NAMES_CORE = ["strict", "template", "sequence", "self", "context", "name", "silent", "filters", "templates",
+                  "warnings", "description", "codons", "kwargs"]
+LOOP_SPECIAL = ("item", "index", "first", "last")
 MAX_OUTPUT = 1500
 
 
@@ -576,8 +718,26 @@ class Gen:
                 out += self.leaves(1, 1, False, incl)
         return out
 
+    def obj(self, serialisable=False):
+        """an object of an unusual but legal type (see the value grammar above)"""
+        r = self.r
+        k = r.random()
+        if k < 0.30:
+            return ["enum", r.choice(sorted(PRIORITY_DATA))]
+        if k < 0.42:
+            return ["level", r.choice(sorted(LEVEL_DATA))]
+        if k < 0.60:
+            return ["masked", self.string()]
+        if k < 0.76:
+            return ["tagged", self.string()]
+        if k < 0.84 or serialisable:
+            return ["celsius", r.choice([0, 21, -4])]
+        return ["note", self.string(), r.random() < 0.6, r.choice([None, None, 0, 3])]
+
     def atom(self):
         r = self.r
+        if r.random() < 0.2:
+            return {"o": self.obj(True)}
         return r.choice([{"i": 1}, {"b": True}, {"f": 1.0}, {"i": 0}, {"b": False}, {"f": 0.0}, {"f": -0.0},
                          {"n": None}, {"i": 42}, {"f": 2.5}, {"t": [{"i": 1}]}, {"t": [{"b": True}]},
                          {"t": [{"i": 0}, {"f": 0.0}]}, {"t": []}])
@@ -589,15 +749,17 @@ class Gen:
         if r.random() < 0.6:
             return self.string()
         keys = r.sample(DICT_KEYS, r.randint(0, 3))
-        return {"d": [[k, self.string()] for k in keys]}
+        return {"d": [[k, ({"o": self.obj(True)} if r.random() < 0.08 else self.string())] for k in keys]}
 
     def value(self, name):
         r = self.r
         k = r.random()
         if name in ("xs", "ys"):
             k = 0.9 if k < 0.85 else k - 0.85
-        if k < 0.45:
+        if k < 0.40:
             return {"s": self.string()}
+        if k < 0.47:
+            return {"o": self.obj()}
         if k < 0.57:
             return {"i": r.choice([0, 1, 42, -7, 100000])}
         if k < 0.67:
@@ -608,7 +770,10 @@ class Gen:
             # items that compare equal (==, hash) but print differently
             items = r.choice([[{"i": 1}, {"b": True}, {"f": 1.0}], [{"i": 0}, {"b": False}, {"f": 0.0}, {"f": -0.0}],
                               [{"t": [{"i": 1}]}, {"t": [{"b": True}]}], [{"b": True}, {"i": 1}, "1"],
-                              [{"f": -0.0}, {"f": 0.0}, {"n": None}]])
+                              [{"f": -0.0}, {"f": 0.0}, {"n": None}],
+                              ["high", {"o": ["enum", "HIGH"]}, {"o": ["masked", "high"]}, {"o": ["tagged", "high"]}],
+                              [{"i": 2}, {"o": ["level", "TWO"]}, {"f": 2.0}], [{"i": 0}, {"o": ["level", "ZERO"]}, {"o": ["celsius", 0]}],
+                              ["", {"o": ["enum", "EMPTY"]}, {"o": ["masked", ""]}]])
             items = list(items)
             r.shuffle(items)
             return {r.choice(["l", "l", "t"]): items}
@@ -900,15 +1065,29 @@ def case_wf(case):
     return ast_wf(case["main"]) and all(ast_wf(t) for _n, t in case["templates"])
 
 
-def value_free(v):
-    def sf(s):
-        return "{" not in s and "}" not in s
+def _texts_ok(v, ok, texts):
+    """ok() of every text a value can contribute (texts: which texts of an object count)"""
+    def dv(x):
+        return all(ok(t) for t in texts(x["o"])) if is_obj(x) else ok(x)
+
+    def it_ok(it):
+        if isinstance(it, str):
+            return ok(it)
+        if "o" in it:
+            return all(ok(t) for t in texts(it["o"]))
+        return all(ok(k) and dv(x) for k, x in it.get("d", []))
     if "s" in v:
-        return sf(v["s"])
+        return ok(v["s"])
+    if "o" in v:
+        return all(ok(t) for t in texts(v["o"]))
     if seq_items(v) is not None:
-        return all(sf(it) if isinstance(it, str) else all(sf(k) and sf(x) for k, x in it.get("d", []))
-                   for it in seq_items(v))
+        return all(it_ok(it) for it in seq_items(v))
     return True
+
+
+def value_free(v):
+    """no text the value can contribute - a view or the raw data of an object included - carries a brace"""
+    return _texts_ok(v, lambda t: "{" not in t and "}" not in t, obj_texts)
 
 
 def value_free_ctx(ctx):
@@ -920,13 +1099,32 @@ def ctx_free(case):
 
 
 def value_clean(v):
-    if "s" in v:
-        return not has_sentinel(v["s"])
-    if seq_items(v) is not None:
-        return all(not has_sentinel(it) if isinstance(it, str)
-                   else all(not has_sentinel(k) and not has_sentinel(x) for k, x in it.get("d", []))
-                   for it in seq_items(v))
-    return True
+    """no string of the value - for an object: its str() / repr() / json.dumps() texts - contains a sentinel
+    (Model.value_raw_ok)"""
+    return _texts_ok(v, lambda t: not has_sentinel(t), obj_view_texts)
+
+
+def has_objects(v):
+    if "o" in v:
+        return True
+    return any((not isinstance(it, str)) and ("o" in it or any(is_obj(x) for _k, x in it.get("d", [])))
+               for it in (seq_items(v) or []))
+
+
+def object_kinds(ctx):
+    out = set()
+    for _k, v in ctx:
+        if "o" in v:
+            out.add(v["o"][0])
+        for it in (seq_items(v) or []):
+            if isinstance(it, str):
+                continue
+            if "o" in it:
+                out.add("item:" + it["o"][0])
+            for _kk, x in it.get("d", []):
+                if is_obj(x):
+                    out.add("dict-value:" + x["o"][0])
+    return sorted(out)
 
 
 def ctx_clean(case):
@@ -1101,6 +1299,10 @@ def project(case, j, k=None):
              "strict": strict, "phase": case.get("phase", "free"), "calls": calls}, kk)
 
 
+RX_BIND = re.compile(r"(multiple values for (?:keyword )?argument|unexpected keyword argument|passed as keyword arguments:)"
+                     r" '(\w+)'")
+
+
 def _guard(fn):
     try:
         p = common.call_with_watchdog(fn, 5.0)
@@ -1111,7 +1313,10 @@ def _guard(fn):
         if msg.startswith("Unknown template: "):
             return {"text": None, "warnings": [], "error": ("unknown", msg[len("Unknown template: "):])}
         return {"text": None, "warnings": [], "error": ("other", type(e).__name__)}
-    except TypeError:
+    except TypeError as e:
+        m = RX_BIND.search(str(e))
+        if m:     # the CALL refused a keyword binding: nothing was rendered
+            return {"text": None, "warnings": [], "error": ("bind", m.group(2)), "message": str(e)}
         return {"text": None, "warnings": [], "error": ("type", "")}
     except RecursionError:
         return {"text": None, "warnings": [], "error": ("depth", "")}
@@ -1360,7 +1565,16 @@ def coq_item(it):
     if isinstance(it, str):
         return f"(IStr {coq_str(it)})"
     if "d" in it:
+        if any(is_obj(v) for _k, v in it["d"]):
+            d = py_item(it)           # a dict whose values are objects: str() of each value, and the dict's own three texts
+            return ("(IDictO " + clist([ctuple(coq_str(k), coq_str(str(v))) for k, v in d.items()]) +
+                    f" {coq_str(str(d))} {coq_str(repr(d))} {coq_str(json.dumps(d))})")
         return "(IDict " + clist([ctuple(coq_str(k), coq_str(v)) for k, v in it["d"]]) + ")"
+    if "o" in it:
+        s_, r_, j_, _t, _n = obj_views(py_obj(it["o"]))
+        if j_ is None:
+            raise ValueError("loop items are JSON-serialisable objects: %r" % (it,))
+        return f"(IOpaque {coq_str(s_)} {coq_str(r_)} {coq_str(j_)})"
     if "i" in it:
         return f"(IInt {cz(it['i'])})"
     if "b" in it:
@@ -1380,6 +1594,10 @@ def coq_value(v):
         return f"(VBool {cbool(v['b'])})"
     if "n" in v:
         return "VNone"
+    if "o" in v:
+        s_, r_, j_, t_, n_ = obj_views(py_obj(v["o"]))
+        return (f"(VObj {coq_str(s_)} {coq_str(r_)} {'None' if j_ is None else '(Some ' + coq_str(j_) + ')'} {cbool(t_)} "
+                f"{'None' if n_ is None else '(Some ' + cz(n_) + ')'})")
     if "f" in v:
         x = float(v["f"])
         if not (str(x) == repr(x) == json.dumps(x)):       # true of every finite float
@@ -1443,6 +1661,84 @@ def gen_codons(r, main):
     return cods
 
 
+def rename_ast(ns, ren):
+    """the template AST with its VARIABLE names renamed (plain / optional / piped variables, if-conditions, each-sequences;
+    not template names, not filter / default words, not the keys dict items bring along)"""
+    def leaf(l):
+        if l[0] in ("V", "O"):
+            return [l[0], ren.get(l[1], l[1])]
+        if l[0] == "P":
+            return ["P", ren.get(l[1], l[1]), l[2]]
+        return l
+    out = []
+    for n in ns:
+        if n[0] == "I":
+            out.append(["I", n[1], ren.get(n[2], n[2]), [leaf(l) for l in n[3]], None if n[4] is None else [leaf(l) for l in n[4]]])
+        elif n[0] == "E":
+            out.append(["E", n[1], ren.get(n[2], n[2]), [leaf(l) for l in n[3]]])
+        else:
+            out.append(leaf(n))
+    return out
+
+
+def rename_vars(case, ren):
+    """the case with its variables renamed CONSISTENTLY: in every template text (registered, rendered, of other
+    instances), in every context and in hand-written codons.  Names are only keys: the expansion of the renamed case is
+    the expansion of the original one wherever ren is injective and touches no loop variable / dict-item key."""
+    def rctx(ctx):
+        return [[ren.get(k, k), v] for k, v in ctx]
+
+    def rcod(cods):
+        return [[t, ren.get(nm, nm), rq] for t, nm, rq in cods]
+
+    def rop(op):
+        o = dict(op)
+        for key in ("main", "tpl"):
+            if o.get(key) is not None:
+                o[key] = rename_ast(o[key], ren)
+        if "ctx" in o:
+            o["ctx"] = rctx(o["ctx"])
+        if o.get("codons"):
+            o["codons"] = rcod(o["codons"])
+        if o.get("templates"):
+            o["templates"] = [[n, rename_ast(t, ren)] for n, t in o["templates"]]
+        return o
+    c = dict(case)
+    c["templates"] = [[n, rename_ast(t, ren)] for n, t in case["templates"]]
+    if "calls" in c:
+        c["calls"] = [rop(op) for op in c["calls"]]
+    if "main" in c:
+        c["main"] = rename_ast(c["main"], ren)
+        c["ctx"] = rctx(c["ctx"])
+    if c.get("codons"):
+        c["codons"] = rcod(c["codons"])
+    return c
+
+
+def bound_names(case):
+    out = []
+    for op in (case["calls"] if "calls" in case else [case]):
+        for k, _v in op.get("ctx") or []:
+            if k not in out:
+                out.append(k)
+    return out
+
+
+def widen_names(case, r):
+    """30% of the generated histories have 1-3 of the variables they BIND renamed, consistently, to identifiers the API
+    itself uses (API_NAMES: strict, template, sequence, self, context, name, silent, filters, ...): every render of the
+    history then passes a keyword argument of that name to synthesize / translate (and on to the nested translate of
+    every include)"""
+    if r.random() >= 0.30:
+        return case
+    olds = [k for k in bound_names(case) if k not in LOOP_SPECIAL and k not in API_NAMES]
+    if not olds:
+        return case
+    olds = r.sample(olds, min(len(olds), r.choice([1, 1, 2, 3])))
+    news = r.sample([n for n in API_NAMES if n not in bound_names(case)], len(olds))
+    return rename_vars(case, dict(zip(olds, news)))
+
+
 def widen_codons(case, r):
     """around an already generated history: 12% of its synthesize / translate(mRNA object) operations render an mRNA
     built with HAND-WRITTEN codons instead (the text, the context and everything else stay as generated)"""
@@ -1500,6 +1796,59 @@ def small_scope_cases():
                     [["a", {"s": "1"}], ["xs", {"l": [{"d": [["k", "q"]]}]}], ["flag", {"b": True}]]):
             for strict in (True, False):
                 out.append({**W(mixed, ctx, strict=strict, phase="free"), "codons": cods})
+    return out + api_name_cases() + object_value_cases()
+
+
+def api_name_cases():
+    """(C) a binding CALLED like something of the API: for each of the 13 names strict, template, sequence, self, context,
+    name, silent, filters, templates, warnings, description, codons, kwargs x a truthy / a falsy value: one history that
+    renders the same template - the variable plain, optional, defaulted, filtered, as an if-condition, in an each-body
+    and behind two levels of includes - through EVERY entry point that takes the bindings as keyword arguments:
+    synthesize(text, **ctx), translate(mRNA, **ctx), translate(mRNA with hand-written codons, **ctx),
+    translate(registered name, **ctx); instances alternately strict / lenient (everything is bound)."""
+    out = []
+    for i, nm in enumerate(API_NAMES_CORE):
+        for val in ({"s": "always"}, {"i": 0}):
+            main = [["V", nm], ["T", "|"], ["P", nm, "dflt"], ["T", "|"], ["P", nm, "upper"], ["T", "|"],
+                    ["I", " ", nm, [["T", "yes"]], [["T", "no"]]],
+                    ["E", " ", "xs", [["T", " "], ["V", "item"], ["T", ":"], ["V", nm], ["T", ";"]]], ["G", "t1"]]
+            templates = [["t2", [["T", "<"], ["V", nm], ["T", ">"]]],
+                         ["t1", [["T", "["], ["G", "t2"], ["O", nm], ["T", "]"]]],
+                         ["t0", main]]
+            ctx = [["xs", {"l": ["a", "b"]}], [nm, val]]
+            out.append({"templates": templates, "strict": (i % 2 == 0), "phase": "free", "filters": [],
+                        "calls": [{"main": main, "ctx": ctx},
+                                  {"op": "render_obj", "own": "page", "main": main, "ctx": ctx},
+                                  {"op": "render_obj", "own": "page", "main": main, "ctx": ctx,
+                                   "codons": [["variable", nm, True]]},
+                                  {"op": "translate", "name": "t0", "ctx": ctx}]})
+    return out
+
+
+def object_value_cases():
+    """(D) a bound value of an unusual but legal TYPE (member of a str- / int-mixin Enum - also a falsy one and one whose
+    data is template syntax -, instance of a str / int subclass with a __str__ of its own, a plain object with __str__,
+    falsy, sized or not): plain, optional, defaulted, under upper / repr, as an if-condition, as a loop item, as the
+    value of a dict item, through an include; then under length, under json, and under a custom filter whose RESULT is
+    an instance of a str subclass."""
+    out = []
+    objs = [["enum", "HIGH"], ["enum", "EMPTY"], ["enum", "TPL"], ["level", "TWO"], ["level", "ZERO"],
+            ["masked", "hunter2 {{p}}"], ["tagged", "ab{c"], ["celsius", 21], ["note", "see {{>t1}}", True, None],
+            ["note", "", False, 3]]
+    for o in objs:
+        ser = o[0] in SERIALISABLE_KINDS
+        main = [["V", "v"], ["T", "|"], ["O", "v"], ["T", "|"], ["P", "v", "none given"], ["T", "|"], ["P", "v", "upper"],
+                ["T", "|"], ["P", "v", "repr"], ["I", " ", "v", [["T", " T "]], [["T", " F "]]],
+                ["E", " ", "vs", [["V", "index"], ["T", "="], ["V", "item"], ["T", "/"], ["D"], ["T", "/"], ["V", "who"], ["T", ";"]]],
+                ["G", "t1"]]
+        items = ([{"o": o}, {"d": [["who", {"o": o}]]}] if ser else []) + ["plain", {"d": [["who", "w"]]}]
+        ctx = [["v", {"o": o}], ["vs", {"l": items}], ["p", {"s": "LEAK"}], ["y", {"s": "LEAK"}]]
+        out.append({"templates": [["t1", [["T", "["], ["V", "v"], ["T", "]"]]]], "strict": False, "phase": "adv",
+                    "filters": [["tag", "tag"]],
+                    "calls": [{"main": main, "ctx": ctx},
+                              {"main": [["P", "v", "length"]], "ctx": ctx},
+                              {"main": [["P", "v", "json"]], "ctx": ctx},
+                              {"main": [["P", "v", "tag"], ["T", "|"], ["P", "p", "tag"]], "ctx": ctx}]})
     return out
 
 
@@ -1548,9 +1897,19 @@ class C12(Check):
     HEADER = "From Verif Require Import C12.Impl C12.Spec C12.Model."
     RUN = "run_case"
     CASE_TYPE = "case"
-    N_QUICK = 1200
+    N_QUICK = 900
     N_THOROUGH = 16000
-    RULE = ("SMALL-SCOPE ENUMERATION first (83 cases, every tier): strict mode x {{#each}} over every list of 1-2 items from "
+    RULE = ("SMALL-SCOPE ENUMERATION first (119 cases, every tier): (C) BINDING NAMES: for each of the 13 identifiers the API "
+            "itself uses (strict, template, sequence, self, context, name, silent, filters, templates, warnings, description, "
+            "codons, kwargs) x a truthy / a falsy value, one history that renders the same template - the variable plain, "
+            "defaulted, filtered, optional, as an if-condition, in an each-body and behind two levels of includes - through "
+            "EVERY entry point that takes the bindings as keyword arguments: synthesize(text, **ctx), translate(mRNA, **ctx), "
+            "translate(mRNA with hand-written codons, **ctx), translate(registered name, **ctx), on strict and lenient "
+            "instances; (D) VALUE TYPES: ten objects of unusual but legal types (members of a str-mixin and of an int-mixin "
+            "Enum - also a falsy one and one whose data is template syntax -, instances of str / int subclasses with a "
+            "__str__ of their own, a plain object with __str__/__repr__/__bool__, sized or not) as a plain / optional / "
+            "defaulted / filtered (upper, repr, length, json) variable, as an if-condition, as a loop item, as the value of a "
+            "dict item, through an include, and a custom filter whose RESULT is an instance of a str subclass; strict mode x {{#each}} over every list of 1-2 items from "
             "{dict with the key the body names, dict without it, plain string} - directly, with an outer binding of the key, and "
             "through an include (the lists that mix both kinds once more lenient); and an mRNA with HAND-WRITTEN codons "
             "(mRNA(text, codons=[Codon(type, name, required)...]): codons declaring fewer variables than the text uses, other "
@@ -1559,6 +1918,9 @@ class C12(Check):
             "mRNA built with hand-written codons instead (a list that leaves out used variables 35%, adds unused names 20%, "
             "declares them optional or under another codon type 15%, is unrelated to the text 15%, repeats / reorders 15%); "
             "the reference renderer never looks at codons. "
+            "30% of the generated histories have 1-3 of the variables they bind renamed, consistently (template texts, "
+            "registered templates, contexts, codons), to one of 22 identifiers the API itself uses (parameters of translate / "
+            "synthesize / create_template / the constructor / the passes, fields of Protein / mRNA / Codon). "
             "A quarter of the generated histories is set in a PROCESS WITH 2-3 Ribosome OBJECTS: the other instances are "
             "constructed at any position (before everything, between operations, after filters were stored elsewhere) with a "
             "filter table, templates (the same names with the same or other texts, or none) and strict flag of their own; 1-4 "
@@ -1582,19 +1944,24 @@ class C12(Check):
             "add no observation, so the model's observations without them must equal the implementation's with them. "
             "The instance is constructed with the default filter table (60%) or with filters={1..4 identifier names, incl. names "
             "of built-in filters, each bound to one of five representative callables: brace-sensitive, reversing, wrapping "
-            "its argument in {{ }}, str, len}. HISTORIES of 1..6 operations on ONE Ribosome: synthesize, translate(name) (registered or not), translate(mRNA "
+            "its argument in {{ }}, str, len, one whose result is an instance of a str subclass that does not print as its data}. HISTORIES of 1..6 operations on ONE Ribosome: synthesize, translate(name) (registered or not), translate(mRNA "
             "object not registered, own .name possibly a registered name, text possibly plain), create_template, "
             "register_template(t) and register_template(t, name=other) incl. re-registration with different text; the "
             "reference is always computed from the registry as it is at that moment. Values: str, int, bool, None, float "
-            "(incl. -0.0), lists and tuples of strings / string-valued dicts / ints / bools / floats / None / tuples, "
-            "incl. lists of items that compare equal but print differently (1, True, 1.0; 0, False, 0.0, -0.0; (1,), (True,)). "
+            "(incl. -0.0), OBJECTS OF OTHER TYPES (7% of the values, 20% of the non-string items, 8% of the dict-item values: "
+            "members of class Priority(str, Enum) / Level(int, Enum), instances of str subclasses that print as '<redacted>' "
+            "or as their data reversed in << >>, of an int subclass that prints 'n C', plain objects with a __str__ of any "
+            "text, truthy or falsy, sized or not - the reference renders str(value) of the real Python object), lists and "
+            "tuples of strings / dicts / ints / bools / floats / None / tuples / such objects, "
+            "incl. lists of items that compare equal but print differently (1, True, 1.0; 0, False, 0.0, -0.0; (1,), (True,); "
+            "'high', Priority.HIGH, Masked('high'), Tagged('high'); 2, Level.TWO, 2.0). "
             "Of the synthesize-only histories (same registered templates and strict flag) a third of "
             "the multi-call histories is built so that an early call raises inside an include - strict missing variable or "
             "len() of an int in the included template, also one include level deeper - and a later call renders the same "
             "include with a good context); every call is judged on its own against the reference. Per call: templates generated from the documented grammar as ASTs (text, plain/optional/piped variables, {{.}}, "
             "non-nested if/else and each blocks with varying header whitespace, includes over <=3 acyclic levels, "
             "unknown includes), printed to text; contexts of strings/ints/bools/lists of strings and of string-valued "
-            "dicts (dict keys may shadow item/index/first); first half delimiter-free, second half adversarial "
+            "dicts (dict keys may shadow item/index/first); alternately delimiter-free and adversarial "
             "(values, items, dict values and defaults containing every template construct, stray delimiters and "
             "unterminated openers; ~12% stray-brace text); 12% strict mode; ASCII only; filtered variables use all seven "
             "built-in filters (upper/lower/trim/title/length/json/repr - json and repr also on lists, tuples, dict items, "
@@ -1619,6 +1986,14 @@ class C12(Check):
                   "c12_rendered_unbound_var_reported (a plain variable still there after the blocks are expanded - one copy of a "
                   "loop body PER ITEM, so a key only some items carry - and unbound is an error in strict mode and an 'Unbound "
                   "variable' warning otherwise, whatever the codons declare), c12_opacity_any_codons, c12_auto_codons; "
+                  "c12_bound_value_rendered_as_its_str ({{x}}, {{?x}}, {{x|default}} render exactly str(value) for a value of ANY "
+                  "type: for an object given by what str(), repr(), json.dumps(), bool(), len() answer for it - five independent "
+                  "things - the text is the str() answer, whatever the other four and the object's data are) and "
+                  "c12_loop_item_rendered_as_its_str ({{.}} / {{item}} over non-dict items); c12_every_identifier_binds (for EVERY "
+                  "identifier x, with no exception - strict, template, sequence, self, ... -, a binding called x is rendered as "
+                  "str(value) by synthesize, translate(mRNA), translate(name) and behind an include that forwards the context; "
+                  "c12_every_identifier_binds_any_codons for hand-written codons); the API before e868ad8, which refused "
+                  "bindings called template / sequence / self, is kept as result_on_legacy with c12_binding_refused_legacy_refuted; "
                   "c12_render_uses_current_registry (on one instance every operation of a history - "
                   "registrations, filters stored after construction, synthesize, translate by name or of an mRNA object - answers a "
                   "pure function of the filter table and the registry of that instance at that moment, strict and the operation) "
@@ -1631,8 +2006,10 @@ class C12(Check):
                   "names bound to callables of a five-member family, possibly replacing built-in filters; the empty table is the "
                   "default Ribosome()); json.dumps / repr / str.title are modelled in Coq (escapes, quoting, surrogate pairs). "
                   "The value type of the theorems "
-                  "covers str, int, bool, None, lists and tuples of str / string-valued dict / int / bool / None items, and floats "
-                  "and tuple items as values whose str()/repr()/json.dumps() is supplied pre-rendered by the harness. The pre-repair pipeline is kept behind a legacy switch with ten machine-checked "
+                  "covers str, int, bool, None, lists and tuples of str / string-valued dict / int / bool / None items, floats "
+                  "and tuple items as values whose str()/repr()/json.dumps() is supplied pre-rendered by the harness, and objects "
+                  "of any other type as VObj (str, repr, json | TypeError, truthiness, len | TypeError: what the protocols answer, "
+                  "read off the real object by the harness), IOpaque items and IDictO dict items with object values. The pre-repair pipeline is kept behind a legacy switch with ten machine-checked "
                   "refutations. Model, taint model and Coq reference renderer are tied to the code / to an independent Python "
                   "reference renderer by evaluating them in Coq on every generated template/context the implementation rendered "
                   "(delimiter-free, adversarial, sentinel-bearing).")
@@ -1647,6 +2024,9 @@ class C12(Check):
                "private-use code points (the reference renderer calls Python's own json.dumps / repr / str.title)",
                "custom filters are callables of the family harness.c12.CUSTOM (the user's code, not the library's); the "
                "reference applies them itself to the raw value",
+               "the classes of the unusual values (harness.c12: Priority, Level, Masked, Tagged, Celsius, Note) are the user's code; "
+               "the reference renders str(value) / len(value) / json.dumps(value) / repr(value) of the real objects, the Coq "
+               "model is given those answers per object (VObj / IOpaque / IDictO)",
                "the Python taint mirror (harness) only classifies; it is compared with the Coq taint model on every case",
                "placeholder differential: '{' '}' in context values are replaced by U+27E6/U+27E7 (printable, caseless, not \\w/\\s); "
                "json.dumps writes them as backslash-u27e6/27e7, which is read back as the placeholder (that literal text is "
@@ -1656,7 +2036,10 @@ class C12(Check):
                    "compared with the model, but excluded from the property",
                    "dict-item keys are identifiers (a key containing braces can make the loop-body str.replace span an earlier value)",
                    "templates and values are otherwise ASCII",
-                   "context variable names are identifiers other than template/self/sequence",
+                   "context variable names are identifiers (any identifier: the bindings are passed as keyword arguments)",
+                   "objects of unusual types are given to the model by what str() / repr() / json.dumps() / bool() / len() answer "
+                   "for them (deterministic, side-effect free protocols); objects whose __str__ raises or returns different "
+                   "texts on successive calls, dict / list subclasses and dict-item KEYS that are not plain strings are not exercised",
                    "custom filter names are distinct identifiers (the syntax {{name|filter}} presumes \\w+ names; a custom name "
                    "containing other characters is never matched as a filter yet suppresses the default of the same text); filters "
                    "are stored after construction by r.filters[name] = f (or a registration method of the class, when there is one); "
@@ -1683,8 +2066,9 @@ class C12(Check):
     def gen_cases(self, rng, n):
         out = []
         for i in range(n):
-            g = Gen(rng, adv=(i >= n // 2))
-            keep = W([["T", "plain text"]], [], phase="adv" if i >= n // 2 else "free")
+            adv = (i % 2 == 1)        # alternately delimiter-free and adversarial (the Coq shards then cost alike)
+            g = Gen(rng, adv=adv)
+            keep = W([["T", "plain text"]], [], phase="adv" if adv else "free")
             for _try in range(20):
                 c = g.history()
                 if not (all(len(pr(cl.get("main") or cl.get("tpl") or [])) <= 150 for cl in calls_of(c))
@@ -1702,8 +2086,9 @@ class C12(Check):
                 keep = c
                 break
             # the widening is drawn from a generator of its own, so the renders are exactly those generated before
-            out.append(widen_codons(widen(keep, random.Random(f"C12:widen:{self.seed}:{n}:{i}")),
-                                    random.Random(f"C12:codons:{self.seed}:{n}:{i}")))
+            out.append(widen_names(widen_codons(widen(keep, random.Random(f"C12:widen:{self.seed}:{n}:{i}")),
+                                                random.Random(f"C12:codons:{self.seed}:{n}:{i}")),
+                                   random.Random(f"C12:names:{self.seed}:{n}:{i}")))
         self.extra_cov["generated_cases_dropped_for_output_size"] = getattr(self, "oversized", 0)
         return out
 
@@ -1847,6 +2232,18 @@ class C12(Check):
                         "ctx": [["a", {"s": "1"}], ["b", {"s": "{{a}}"}]],
                         "codons": [["variable", "a", True], ["variable", "zz", True], ["loop", "b", True]]},
                        {"main": [["V", "a"], ["T", " and "], ["V", "b"]], "ctx": [["a", {"s": "1"}]]}]},
+            # the finding repaired by e868ad8: a binding called like the first parameter of translate() / synthesize()
+            W([["T", "x="], ["V", "template"]], [["template", {"s": "V"}]], phase="free"),
+            {"templates": [["t", [["T", "a="], ["V", "template"], ["V", "self"], ["O", "sequence"]]]], "strict": True,
+             "phase": "free", "filters": [],
+             "calls": [{"op": "translate", "name": "t", "ctx": [["sequence", {"i": 0}], ["self", {"s": "me"}], ["template", {"s": "V"}]]},
+                       {"main": [["G", "t"], ["V", "sequence"]], "ctx": [["template", {"s": "V"}], ["self", {"n": None}], ["sequence", {"s": "S"}]]}]},
+            # a binding called like a keyword of the API; a str-mixin Enum member and a masking str subclass as values
+            W([["T", "policy="], ["V", "strict"], ["I", " ", "strict", [["T", " (no exceptions)"]], None]],
+              [["strict", {"s": "always"}]], phase="free"),
+            W([["T", "prio="], ["V", "p"], ["T", " pw="], ["V", "s"], ["E", " ", "ps", [["V", "index"], ["T", "="], ["V", "item"], ["T", ";"]]]],
+              [["p", {"o": ["enum", "HIGH"]}], ["s", {"o": ["masked", "hunter2 {{p}}"]}],
+               ["ps", {"l": [{"o": ["enum", "LOW"]}, {"o": ["enum", "HIGH"]}]}]]),
         ]
         return base + super().corpus_cases()
 
@@ -1868,6 +2265,10 @@ class C12(Check):
             for k, nm in real["warnings"]:
                 wrow += [k] + cps(nm) + [-1]
             obs = [[0], cps(real["text"]), wrow]
+        elif real["error"][0] == "bind":
+            # the call refused a keyword binding (Model.RBindRefused: never answered by the model of the present code)
+            return ([[6] + cps(real["error"][1]), [], [], [], [0], [1]],
+                    {"real": real, "mirror": mir, "ref": ref, "esc": esc_run, "mirror_esc": mir_esc})
         else:
             k, nm = real["error"]
             obs = [{"value": [1] + cps(nm), "type": [2], "depth": [3]}.get(k, [9]), [], []]
@@ -1941,8 +2342,10 @@ class C12(Check):
                 o = f"(OpTranslate {coq_str(op['name'])} {cctx(op['ctx'])})"
             elif op.get("codons"):
                 o = f"(OpRenderDecl {coq_tpl(op['main'])} {coq_codons(op['codons'])} {cctx(op['ctx'])})"
-            else:
+            elif kind == "render_obj":
                 o = f"(OpRender {coq_tpl(op['main'])} {cctx(op['ctx'])})"
+            else:
+                o = f"(OpSynth {coq_tpl(op['main'])} {cctx(op['ctx'])})"
             items.append(f"(SOn {op_on(op)} {o})")
         return clist(items)
 
@@ -1971,6 +2374,7 @@ class C12(Check):
             v = self._monitor_call(sub, t)
             if v is None:
                 continue
+            v = self._refine(sub, v)
             if n > 1:
                 # does the same render pass on a fresh instance holding the CURRENT registry and filter table?
                 fo, ft = self._run_call(sub, run_real(sub), run_real(sub, True) if not ctx_free(sub) else None)
@@ -2020,6 +2424,15 @@ class C12(Check):
         wf, free, clean = case_wf(case), ctx_free(case), ctx_clean(case)
         if real["error"] and real["error"][0] in ("other",):
             return Violation("C12/raises", f"translate raised {real['error'][1]}")
+        if real["error"] and real["error"][0] == "bind":
+            # "for all contexts": every identifier is a legal variable name, and the bindings are the keyword arguments of
+            # the call - whatever a binding is called, the call must take it
+            nm = real["error"][1]
+            return Violation("C12/binding-refused",
+                             f"the binding named {nm!r} cannot be passed: rendering {pr(case['main'])!r} with the bindings "
+                             f"{[k for k, _v in case['ctx']]} raised TypeError({real.get('message')!r}) before anything was "
+                             f"rendered; the expansion with the given bindings is "
+                             f"{ref['text'] if ref['error'] is None else ref['error']!r}")
         if not clean:
             return None      # sentinel-bearing values are outside the property's side condition (observation only)
 
@@ -2092,6 +2505,12 @@ class C12(Check):
         # filter type errors
         if (ref["error"] == "type") != bool(real["error"] and real["error"][0] == "type"):
             return Violation("C12/filter-error", f"reference error {ref['error']} vs implementation error {real['error']}")
+        if real["error"] and not ref["error"]:
+            # the expansion is defined (nothing missing in strict mode, no filter applied to a value it cannot take) and
+            # the code raised: in lenient mode a missing variable is a warning, never an error
+            return Violation("C12/spurious-error",
+                             f"rendering {pr(case['main'])!r} raised {real['error']} ({'strict' if case['strict'] else 'lenient'} "
+                             f"mode) although the expansion with the given bindings is defined: {ref['text']!r}")
         if real["error"] or ref["error"]:
             return None
 
@@ -2104,6 +2523,79 @@ class C12(Check):
             if nm not in warned:
                 return Violation("C12/missing-not-warned", f"plain variable {nm!r} is unbound and was rendered but no warning names it")
         return None
+
+    def _passes(self, sub):
+        """does this single render, on a fresh instance, satisfy the property?"""
+        try:
+            _o, t = self._run_call(sub, run_real(sub), run_real(sub, True) if not ctx_free(sub) else None)
+        except Exception:
+            return False
+        return self._monitor_call(sub, t) is None
+
+    def _refine(self, sub, v):
+        """name WHAT about the bindings a failing render depends on.  Two consequences of the property are tried on a fresh
+        instance with the same registry and filters:
+          * names are only keys - the same render with ONE variable renamed consistently (template texts, registered
+            templates, context) to a fresh identifier has the same expansion up to that renaming.  If the renamed render
+            satisfies the property, the failure depends on what the binding is CALLED: C12/binding-name-matters;
+          * a value contributes str(value) - if the render satisfies the property once every object of an unusual type is
+            replaced by the plain string str(object), the failure depends on the TYPE of a bound value:
+            C12/value-not-rendered-as-str."""
+        if v.signature in ("C12/binding-refused", "C12/raises"):
+            return v
+        if self._passes(sub):
+            return v          # not a function of this render alone (earlier operations, other instances): judged by the caller
+        dict_keys = set()
+        for _k, val in sub["ctx"]:
+            for it in (seq_items(val) or []):
+                if not isinstance(it, str) and "d" in it:
+                    dict_keys |= {k for k, _x in it["d"]}
+        used = set(bound_names(sub)) | syntactic_plain_vars(sub) | dict_keys
+        for k, _val in sub["ctx"]:
+            if k in LOOP_SPECIAL or k in dict_keys:
+                continue
+            fresh = next(f"zq{i}" for i in range(1000) if f"zq{i}" not in used)
+            if self._passes(rename_vars(sub, {k: fresh})):
+                return Violation("C12/binding-name-matters",
+                                 f"the binding named {k!r} is not treated as a binding: {v.what}; the same render with that "
+                                 f"variable called {fresh!r} everywhere (template texts and context) gives the reference "
+                                 f"expansion - names are only keys, any identifier may be bound")
+        kinds = object_kinds(sub["ctx"])
+        if kinds:
+            def plain_d(x):
+                return str(py_obj(x["o"])) if is_obj(x) else x
+
+            def plain_item(it):
+                if isinstance(it, str):
+                    return it
+                if "o" in it:
+                    return str(py_obj(it["o"]))
+                if "d" in it:
+                    return {"d": [[k, plain_d(x)] for k, x in it["d"]]}
+                return it
+
+            def plain(val):
+                if "o" in val:
+                    return {"s": str(py_obj(val["o"]))}
+                for key in ("l", "t"):
+                    if key in val:
+                        return {key: [plain_item(it) for it in val[key]]}
+                return val
+            if self._passes({**sub, "ctx": [[k, plain(val)] for k, val in sub["ctx"]]}):
+                return Violation("C12/value-not-rendered-as-str",
+                                 f"a bound value of an unusual type ({', '.join(kinds)}) does not contribute str(value): "
+                                 f"{v.what}; bindings: {self._show_objects(sub['ctx'])}; with every such object replaced by "
+                                 f"the plain string str(object) the same render gives the reference expansion")
+        return v
+
+    @staticmethod
+    def _show_objects(ctx):
+        out = []
+        for k, val in ctx:
+            if has_objects(val):
+                pv = py_value(val)
+                out.append(f"{k}={pv!r} (str: {str(pv)!r})")
+        return "; ".join(out)
 
     NODE_KINDS = {"T": "text", "V": "plain", "D": "dot", "O": "optional", "G": "include", "I": "if", "E": "each"}
 
@@ -2197,6 +2689,11 @@ class C12(Check):
             ks.append("op:" + (op.get("op") or "synthesize"))
             if op.get("codons"):
                 ks.append("op:render_obj/hand-written-codons")
+            api = [k_ for k_, _v in op["ctx"] if k_ in API_NAMES]
+            if api:
+                route = (op.get("op") or "synthesize") + ("+codons" if op.get("codons") else "")
+                ks.append("api-name-bound/" + route)
+                ks += ["api-name:" + k_ for k_ in api]
             sub = sub_case(case, k)
             if sub is None:
                 ks.append("translate-unknown-name")
@@ -2260,6 +2757,9 @@ class C12(Check):
                         if l[1] in C and not value_free(C[l[1]]):
                             fk.add("filter-on-brace-value:" + nm)
         ks += sorted(fk)
+        ks += ["value:object/" + k_ for k_ in object_kinds(case["ctx"])]
+        if any(k_ in API_NAMES for k_, _v in case["ctx"]) and any(n[0] == "G" for n in case["main"]):
+            ks.append("api-name-bound/forwarded-to-an-include")
         for o, p in (trace.get("mirror") or {}).get("pairs", ()):
             ks.append("taint:%s->%s" % (ORIGIN_NAMES[o], PASS_NAMES[p]))
         return ks
@@ -2302,6 +2802,26 @@ class C12(Check):
                                    + ("/strict" if case["strict"] else ""))
         return sorted(ks)
 
+    def _shrink_texts(self, c, pred):
+        """a history that keeps its operations: fewer nodes in every rendered / registered text, fewer bindings, fewer
+        registered templates"""
+        def with_call(i, o2):
+            return {**c, "calls": c["calls"][:i] + [o2] + c["calls"][i + 1:]}
+
+        def with_tpl(j, t2):
+            return {**c, "templates": c["templates"][:j] + [[c["templates"][j][0], t2]] + c["templates"][j + 1:]}
+        for i in range(len(c["calls"])):
+            for key in ("main", "tpl", "ctx"):
+                o = c["calls"][i]
+                if o.get(key):
+                    keep = (lambda xs: True) if key == "ctx" else (lambda xs: len(xs) > 0)
+                    c = with_call(i, {**o, key: common.shrink_list(
+                        o[key], lambda xs, i=i, o=o, key=key, keep=keep: keep(xs) and pred(with_call(i, {**o, key: xs})))})
+        c = {**c, "templates": common.shrink_list(c["templates"], lambda ts: pred({**c, "templates": ts}))}
+        for j in range(len(c["templates"])):
+            c = with_tpl(j, common.shrink_list(c["templates"][j][1], lambda ns, j=j: len(ns) > 0 and pred(with_tpl(j, ns))))
+        return c
+
     def shrink(self, case, pred):
         c = dict(case)
         for key in ("silent", "init", "describe"):
@@ -2331,9 +2851,9 @@ class C12(Check):
                         c["calls"] = c["calls"][:i] + [o2] + c["calls"][i + 1:]
                         o = o2
             if len(c["calls"]) > 1:
-                return c
+                return self._shrink_texts(c, pred)
             if c["calls"][0].get("op") is not None:
-                return c
+                return self._shrink_texts(c, pred)
             c = {**{k: c[k] for k in ("silent", "init", "describe") if k in c},
                  "templates": c["templates"], "strict": c["strict"], "phase": c.get("phase", "free"),
                  "filters": c.get("filters", []), "main": c["calls"][0]["main"], "ctx": c["calls"][0]["ctx"]}
